@@ -38,17 +38,43 @@ def triple(x):
     return [0, int(x), 1]
 
 
-def norm_table(t, kind):
+def wide_entry(col, x, ref):
+    """wide-value family: exact integers as decimal strings; mean/var/std compared with the reference by the
+    float bridge (1e-9 relative) - equal labels iff close"""
+    if x is None:
+        return [1, 0, 1, ""]
+    if col in ("max", "min", "sum", "count"):
+        return [4, 0, 1, repr(int(round(x))) if abs(x - round(x)) <= 1e-6 * max(1.0, abs(x)) else "frac:%r" % x]
+    if ref is not None and abs(x - ref) <= 1e-9 * max(1.0, abs(ref)):
+        return [4, 0, 1, "close_to_numpy"]
+    return [4, 0, 1, "value:%r" % x]
+
+
+def norm_table(t, kind, wide=False, ref=None):
     if t is None:
         return {"columns": [], "rows": []}
+    if kind == "stats" and wide:
+        cols = list(t["columns"])
+        rows = []
+        for i, r in enumerate(t["rows"]):
+            rr = ref["rows"][i]["raw"] if (ref is not None and i < len(ref["rows"])) else [None] * len(cols)
+            cells = []
+            for j, c in enumerate(cols):
+                x = r["raw"][j]
+                if ref is None and c not in ("max", "min", "sum", "count"):
+                    cells.append([1, 0, 1, ""] if x is None else [4, 0, 1, "close_to_numpy"])
+                else:
+                    cells.append(wide_entry(c, x, rr[j]))
+            rows.append({"zone2": r["zone2"] if isinstance(r["zone2"], int) else -777777, "cells": cells})
+        return {"columns": cols, "rows": rows}
     if kind == "stats":
         cols = list(t["columns"])
         rows = [{"zone2": r["zone2"] if isinstance(r["zone2"], int) else -777777,
-                 "cells": [triple(r[c]) for c in cols]} for r in t["rows"]]
+                 "cells": [triple(r[c]) + [""] for c in cols]} for r in t["rows"]]
         return {"columns": cols, "rows": rows}
     cols = ["c%s" % c for c in t["columns"]]
     rows = [{"zone2": r["zone2"] if isinstance(r["zone2"], int) else -777777,
-             "cells": [triple(x) for x in r["cells"]]} for r in t["rows"]]
+             "cells": [triple(x) + [""] for x in r["cells"]]} for r in t["rows"]]
     return {"columns": cols, "rows": rows}
 
 
@@ -147,12 +173,29 @@ def gen_jobs(ctx, rng):
         jobs.append({"kind": "crosstab", "zones": zones, "values": vals3, "nodata": nodata, "zone_ids": None,
                      "cat_ids": None, "agg": "count", "zdtype": zdtype, "vdtype": "float64" if vfloat else vdtype,
                      "H": H, "W": W, "layer_ids": list(range(L)), "chunkings": ch3})
+    # wide-value family: integer rasters whose values use most of their dtype's range (squares and sums of squares
+    # do not fit the input dtype) and large floats; exact statistics compared exactly, mean/var/std by the float
+    # bridge (1e-9 relative to the NumPy backend's value)
+    for (dt, lo, hi) in [("int8", -100, 100), ("uint8", 100, 250), ("int16", 200, 3000), ("uint16", 30000, 60000),
+                         ("int32", 50000, 60000), ("int64", 10 ** 6, 3 * 10 ** 6), ("float64", 10 ** 5, 10 ** 6)][
+                             : (7 if not quick else 7)]:
+        H, W = rng.choice([(4, 6), (6, 6), (5, 8)])
+        zones = [[rng.choice([1, 2, 3]) for _ in range(W)] for _ in range(H)]
+        values = [[rng.randrange(lo, hi) for _ in range(W)] for _ in range(H)]
+        allc = [(r, c) for r in compositions(H)[:: 5] for c in compositions(W)[:: 7]]
+        chs = [{"z": [r, c], "v": [r, c], "sched": "synchronous", "nw": 1} for (r, c) in rng.sample(allc, 3)]
+        chs.append({"z": [[H], [W]], "v": [[H], [W]], "sched": "synchronous", "nw": 1})
+        jobs.append({"kind": "stats", "zones": zones, "values": values, "nodata": None, "zone_ids": None,
+                     "stats": ["mean", "max", "min", "sum", "std", "var", "count"], "zdtype": "int32", "vdtype": dt,
+                     "H": H, "W": W, "wide": True, "chunkings": chs})
     return jobs
 
 
 def classify(job, case, clause):
     """stable key of the failing class (for known_findings.json), by a predicate on the case"""
     three_d = isinstance(job["values"][0][0], list)
+    if job.get("wide") and job["vdtype"] != "float64" and clause in ("entry_differs_std", "entry_differs_var"):
+        return "stats-dask:sum-of-squares-overflows-integer-dtype"
     if job["kind"] == "crosstab" and not three_d and case["z"] != case["v"]:
         return "crosstab-dask:2d-zones-values-chunked-differently"
     if job["kind"] == "stats" and clause in ("entry_differs_sum", "entry_differs_count"):
@@ -218,14 +261,15 @@ def execute(ctx, jobs):
             ctx.note("numpy backend raised (left to C02/C04, skipped here): %s" % r["np_error"][:150])
             continue
         three_d = isinstance(job["values"][0][0], list)
-        npt = norm_table(r["np"], job["kind"])
+        wide = bool(job.get("wide"))
+        npt = norm_table(r["np"], job["kind"], wide)
         for c in r["cases"]:
             cases.append({"kind": job["kind"], "error": c["error"], "lazy": c["lazy"],
-                          "np": npt, "dk": norm_table(c["table"], job["kind"]),
-                          "zones": flat(job["zones"], 2), "values": [] if three_d else flat(job["values"]),
+                          "np": npt, "dk": norm_table(c["table"], job["kind"], wide, r["np"]),
+                          "zones": flat(job["zones"], 2), "values": [] if (three_d or wide) else flat(job["values"]),
                           "nodata": NONE if job["nodata"] is None else job["nodata"],
                           "blk": block_ids(job["H"], job["W"], c["z"][0], c["z"][1]),
-                          "model": 0 if three_d else 1})
+                          "model": 0 if (three_d or wide) else 1})
             back.append((job, c))
     v = ctx.judge("ZonalDask_Judge", cases, name="dask_vs_numpy_tables", parallel=6)
     for i, (job, c) in enumerate(back):
